@@ -272,3 +272,46 @@ func Rune(name string) rune {
 	Assume(r >= 0 && r <= 0x10FFFF)
 	return r
 }
+
+// CaptureFormats(true) makes the engine return a placeholder from fmt.Sprintf
+// and keep the operands, so that formatted numbers can be examined exactly.
+// Natively it does nothing: FloatsOf then parses the real text.
+func CaptureFormats(on bool) {}
+
+// FloatsOf returns the float operands (verbs %f/%v of float64) that went into
+// the formatted string s: exactly under the engine, re-parsed from the text
+// (every maximal token of the form [-]digits.digits) natively.
+func FloatsOf(s string) []float64 {
+	var out []float64
+	i := 0
+	for i < len(s) {
+		j := i
+		if s[j] == '-' {
+			j++
+		}
+		k := j
+		for k < len(s) && s[k] >= '0' && s[k] <= '9' {
+			k++
+		}
+		if k > j && k < len(s) && s[k] == '.' {
+			m := k + 1
+			for m < len(s) && s[m] >= '0' && s[m] <= '9' {
+				m++
+			}
+			if m > k+1 {
+				f, err := strconv.ParseFloat(s[i:m], 64)
+				if err == nil {
+					out = append(out, f)
+				}
+				i = m
+				continue
+			}
+		}
+		if k > i {
+			i = k
+		} else {
+			i++
+		}
+	}
+	return out
+}
